@@ -14,7 +14,10 @@ fn forest_sprite(levels: &[u16], vis: &dyn Fn(usize) -> bool, image_parents: boo
         // level alone, not by layer type)
         let is_group = !image_parents && i + 1 < n && levels[i + 1] > levels[i];
         // every third layer also carries a flag bit the format has not assigned (readers must ignore it)
-        let flags = if vis(i) { LF_VISIBLE } else { 0 } | 2 | if (i + n) % 3 == 0 { 0x80 << ((i + n) % 9) } else { 0 };
+        // the other six defined bits (editable, locked, background, continuous, collapsed, reference) vary
+        // per layer; none of them may influence parents or visibility
+        let other = (((i * 37 + n * 11 + (levels[i] as usize) * 5) % 64) as u16 * 2) & 0x7E;
+        let flags = if vis(i) { LF_VISIBLE } else { 0 } | other | if (i + n) % 3 == 0 { 0x80 << ((i + n) % 9) } else { 0 };
         s.layers.push(Layer { flags, kind: if is_group { LayerKind::Group } else { LayerKind::Image }, level: levels[i], blend: 0, opacity: 255, name: String::new(), user_data: None });
         if !is_group && n <= 4096 {
             s.frames[0].cels.push(Cel { layer: i as u16, x: i as i16, y: 0, opacity: 255, content: CelContent::Image { w: 1, h: 1, pixels: vec![(i % 251) as u8 + 1, 7, 9, 255] }, user_data: None });
